@@ -6,6 +6,7 @@ every number of senders, messages, stoppers, every batch size B ≥ 1 and EVERY 
 import HW.Proofs.Inbox
 import HW.Proofs.InboxLive
 import HW.Props.Facts
+import HW.Proofs.ProcOpen
 namespace HW.C03
 open HW.Inbox
 
@@ -56,5 +57,23 @@ example :
     let s := runSched 4096 (init [[7]] 0) [0, 0, 0, 0, 2, 2, 1, 2]
     s.status = .idle ∧ s.q = [7] ∧ s.thr[2]? = some Pc.wLen ∧ s.started = true ∧ s.everStopped = false := by
   decide
+
+/-- Process-level half (actor/process.go): whatever the receiver does — panics in Initialized / Started /
+    any message, restarts, replays, pills — an actor that is still registered at the end of a history (its
+    inbox still accepts what senders send) is not stopped and its inbox IS open: so the premise `started` of
+    the theorems above holds for every actor whose messages are being accepted, and accepted messages are
+    not stranded in an inbox that was never opened. -/
+theorem registered_actor_has_open_inbox (max mw : Nat) (script : List Proc.Outcome) (batches : List (List Proc.Msg))
+    (hr : (Proc.runHistory max mw script batches).1.registered = true) :
+    (Proc.runHistory max mw script batches).1.stopped = false ∧
+    (Proc.runHistory max mw script batches).1.inboxOpen = true :=
+  Proc.registered_open max mw script batches hr
+
+/-- non-vacuity: a receiver that panics in Started on the initial spawn is restarted and ends registered with
+    an open inbox (the case in which the spawning goroutine, not an inbox worker, runs the restart). -/
+example : (Proc.runHistory 2 0 [.ok, .panic] [[.user 1 none]]).1.registered = true ∧
+    (Proc.runHistory 2 0 [.ok, .panic] [[.user 1 none]]).1.inboxOpen = true ∧
+    Proc.userRecvs (Proc.runHistory 2 0 [.ok, .panic] [[.user 1 none]]).1.trace = [(1, none)] := by
+  decide +kernel
 
 end HW.C03
